@@ -34,7 +34,14 @@ type runner struct {
 	cf  hx.CaseFile
 	nf  int // forced scenarios realised
 	inv int // scenarios dropped because a real deadline could not be met
+	// every stuck actor costs a full watchdog period: after a few of them the
+	// remaining scenarios are not run (the failures are already recorded)
+	stuck int
 }
+
+const maxStuck = 3
+
+func (x *runner) wedged() bool { return x.stuck >= maxStuck }
 
 func classes(sc *Scenario) []string {
 	cl := []string{"mode/" + sc.Mode}
@@ -77,6 +84,9 @@ func (x *runner) record(sc *Scenario, o *Outcome) {
 	x.res.Count(string(b), nontrivial(sc), classes(sc)...)
 	for _, p := range o.Problems {
 		x.res.Fail(p.Key, p.What, rec)
+		if strings.HasSuffix(p.Key, "/stuck") {
+			x.stuck++
+		}
 	}
 	if o.Invalid != "" || hasKey(o.Problems, "C10/setup") || strings.Contains(keys(o.Problems), "/stuck") {
 		return
@@ -147,7 +157,7 @@ func randomChooser(r *hx.Rand) func(int, []int) int {
 // run from a fresh session), at most max of them.
 func (x *runner) explore(sc *Scenario, max int) {
 	var prefix []int
-	for n := 0; n < max; n++ {
+	for n := 0; n < max && !x.wedged(); n++ {
 		o := runForced(sc, func(depth int, en []int) int {
 			if depth < len(prefix) {
 				return prefix[depth]
@@ -469,20 +479,23 @@ func main() {
 			nEnum, nRand, nFree, nTimer, nRace = 400, 8000, 2000, 20, 60
 		}
 		for _, sc := range corpus() {
+			if x.wedged() {
+				break
+			}
 			x.record(sc, runForced(sc, inOrder))
 		}
 		for _, sc := range exhaustiveSets() {
 			x.explore(sc, nEnum)
 		}
-		for i := 0; i < nRand; i++ {
+		for i := 0; i < nRand && !x.wedged(); i++ {
 			sc := randomScenario(r)
 			x.record(sc, runForced(sc, randomChooser(r)))
 		}
-		for i := 0; i < nTimer; i++ {
+		for i := 0; i < nTimer && !x.wedged(); i++ {
 			sc := timerScenario(r)
 			x.record(sc, runForced(sc, randomChooser(r)))
 		}
-		for i := 0; i < nFree; i++ {
+		for i := 0; i < nFree && !x.wedged(); i++ {
 			sc := freeScenario(r)
 			x.record(sc, runFree(sc, r))
 		}
@@ -497,5 +510,6 @@ func main() {
 	res.Extra["model_cases"] = x.cf.Len()
 	res.Extra["forced_scenarios"] = x.nf
 	res.Extra["dropped_real_deadline_scenarios"] = x.inv
+	res.Extra["stopped_early_after_stuck_actors"] = x.wedged()
 	res.Write(o.Out)
 }
